@@ -173,7 +173,10 @@ def split_ok(cls_name, K, parent, children):
         for k in dims:
             w = F(pbox[k][1]) - F(pbox[k][0])
             target = w / per_dim
-            tol = 8 * Fraction(math.ulp(max(abs(float(pbox[k][0])), abs(float(pbox[k][1])), 5e-324)))
+            ulpM = Fraction(math.ulp(max(abs(float(pbox[k][0])), abs(float(pbox[k][1])), 5e-324)))
+            # a correctly rounded midpoint (lo+hi)/2 is within half an ulp of the exact one; np.linspace rounds
+            # each boundary separately, so K-ary sides get 8 ulp
+            tol = 8 * ulpM if cls_name == "KaryPartition" else ulpM / 2
             for b in boxes:
                 side = F(b[k][1]) - F(b[k][0])
                 if abs(side - target) > tol:
